@@ -17,7 +17,10 @@ MANIFEST = {
             "http_hdr[160] / rd_header[14], never stalled), ws_reader_final_state (an open session holds at most a proper prefix of "
             "one frame or an unfinished header line). NUL bytes in the header block are part of S_ws (D20: a line with a NUL in "
             "front of its LF has no end, as for strchr); a header line starting with its separator, which libcoap took for the "
-            "end of the header block, is refused since fix 8c32d61 (ws_blank_led_line_refused). Ten defects found on the way are "
+            "end of the header block, is refused since fix 8c32d61 (ws_blank_led_line_refused). coap_ws_close's draining loop "
+            "(model closeDrain, tied by the wsclose lines): ws_close_drain_bounded (at most 5 coap_ws_read calls from every reader "
+            "state for every pending byte string), ws_close_drain_idle, ws_close_drain_recv, ws_read_data_fits (the data part of "
+            "coap_ws_read never hands back more than the caller's buffer holds, any state, any buffer size). Ten defects found on the way are "
             "fixed in /repo (1 TCP, 9 WebSocket).",
     "note": "Trusted: Lean kernel (+ propext, Classical.choice, Quot.sound), harness/stream.c (chunk feeder replacing the socket layer, "
             "dispatch hook 2de516c), generators, the hand transcriptions M / M_ws (checked against the compiled code on the cases run "
@@ -33,6 +36,7 @@ REQUIRED_THEOREMS = ["reader_eq_spec", "reader_segmentation_invariant", "reader_
                      "ws_frames_no_message_stuck", "ws_frames_no_oob", "ws_init_inv", "ws_up_inv",
                      "ws_reader_eq_spec", "ws_reader_segmentation_invariant", "ws_reader_cut_invariant",
                      "ws_no_message_stuck", "ws_blank_led_line_refused",
+                     "ws_close_drain_bounded", "ws_close_drain_idle", "ws_close_drain_recv", "ws_read_data_fits",
                      "ws_reader_no_oob", "ws_reader_final_state"]
 RULE = ("(byte stream, segmentation) pairs replayed into the real coap_read_session of a TCP / WebSocket session whose lowest "
         "layer is a chunk feeder: streams = 1-6 encoded messages (all four TCP length forms, tokens 0..extended, a share of "
